@@ -298,7 +298,7 @@ def evalAdd (a b : Option Shape) : Option Shape :=
 def evalAbs (a : Option Shape) : Bool :=
   match a with
   | none => false
-  | some s => !(s.any (fun d => match d with | .known n => decide (n < 0) | _ => false))
+  | some s => !(s.any Dim.isNegInt)
 
 structure ReshapeEval where
   identity : Bool            -- replaced by `Identity(input)`
@@ -498,6 +498,26 @@ def getShapeValue (c : Option ConstInfo) (sym : Option Shape) : Option Shape :=
     else sym
   | none => sym
 
+/-- Shape part of `SimplePatternMatcher._match_constant` for a *scalar* pattern literal (`x * 1`, `x + 0`, …):
+the matched constant must have `ndim == 0` (a one-element tensor of rank ≥ 1 is not a scalar). -/
+def matchScalarShape (ndim : Nat) : Bool := ndim == 0
+
+/-- … and for a list literal (`[-1]`): `numpy_value.shape == (len(literal),)`. -/
+def matchListShape (shape : List Nat) (len : Nat) : Bool := decide (shape = [len])
+
+inductive NoOp where
+  | mul1 | add0 | sub0 | div1
+  deriving DecidableEq, Repr
+
+/-- The arithmetic rules of `rules/common/_no_op.py` (`mul_by_1`, `add_0` with their commuted forms, `sub_0`,
+`div_by_1`): `constSide` = operand position of the constant, `cNdim` its rank, `neutral` = its single value equals
+the pattern literal.  `true` = the node is replaced by `Identity(x)`. -/
+def noOpFires (op : NoOp) (constSide : Nat) (cNdim : Nat) (neutral : Bool) : Bool :=
+  matchScalarShape cNdim && neutral &&
+  (match op with
+   | .mul1 | .add0 => constSide == 0 || constSide == 1
+   | .sub0 | .div1 => constSide == 1)
+
 /-! ## The ONNX specification side -/
 
 /-- multidirectional broadcasting of two dimension values. -/
@@ -591,6 +611,13 @@ def Admits (σ : String → Nat) : Shape → List Int → Prop
   | [], [] => True
   | d :: s, v :: l => d.Admits σ v ∧ Admits σ s l
   | _, _ => False
+
+/-- The entries of `l` that sit at *unnamed* positions of `s` are non-negative.  Every unnamed entry of a shape
+value comes from a tensor dimension (through `Shape`, `Gather`, `Concat`, `Squeeze`/`Reshape` propagation); `add`
+never creates one. -/
+def UnnamedNonneg : Shape → List Int → Prop
+  | d :: s, v :: l => (d = .unknown → 0 ≤ v) ∧ UnnamedNonneg s l
+  | _, _ => True
 
 def Dim.val (σ : String → Nat) : Dim → Option Int
   | .known k => some k
